@@ -163,6 +163,84 @@ func c38(seed uint64, n int) {
 			enc.Encode(o)
 		}
 	}
+	c38encode(r, uris)
+}
+
+type c38enc struct {
+	Kind    string   `json:"kind"` // "encode"
+	Policy  string   `json:"policy"`
+	Mode    int      `json:"mode"`
+	CS      int      `json:"cs"`
+	MaxBody uint32   `json:"maxbody"`
+	BodyLen int      `json:"bodylen"`
+	K       int      `json:"k"`
+	J       int      `json:"j"`
+	Raw     []int    `json:"raw"`     // body bytes carried by each chunk EncodeChunks produced
+	Secured []int    `json:"secured"` // size of each chunk after signAndEncrypt
+	Types   string   `json:"types"`
+	Err     string   `json:"err,omitempty"`
+}
+
+// c38encode drives newMessage -> EncodeChunks(maxBodySize) -> signAndEncrypt for message bodies k*max+j:
+// every chunk must carry at most max body bytes and its secured size must fit the chunk size.
+func c38encode(r *rng.R, uris []string) {
+	for _, uri := range uris {
+		for _, mode := range modesFor(uri) {
+			nl := 32
+			if a, err := uapolicy.Asymmetric(uri, nil, nil); err == nil && a.NonceLength() > 0 {
+				nl = a.NonceLength()
+			}
+			for _, cs := range []int{8192, 8192 + r.Range(1, 15), 65535} {
+				algo, err := uapolicy.Symmetric(uri, r.Bytes(nl), r.Bytes(nl))
+				if err != nil {
+					panic(err)
+				}
+				inst := uasc.VerifNewInstance(uri, mode, algo, 7, 9, uint32(r.U64()))
+				mb := int(inst.SetMaximumBodySize(cs))
+				for k := 1; k <= 4; k++ {
+					for j := 0; j <= 3; j++ {
+						if cs > 20000 && (k > 2 || j > 1) {
+							continue
+						}
+						o := c38enc{Kind: "encode", Policy: shortName(uri), Mode: int(mode), CS: cs, MaxBody: uint32(mb), K: k, J: j}
+						l := k*mb + j - c07overhead
+						if l < 0 {
+							continue
+						}
+						svc := findSvc(genBody(l, r.Intn(256), r.Intn(256)))
+						o.BodyLen = len(bodyOf(svc))
+						func() {
+							defer func() {
+								if rec := recover(); rec != nil {
+									o.Err = fmt.Sprint("panic: ", rec)
+								}
+							}()
+							m := inst.NewMessage(svc, ua.ServiceTypeID(svc), 11)
+							chunks, err := m.EncodeChunks(inst.MaxBodySize())
+							if err != nil {
+								o.Err = err.Error()
+								return
+							}
+							for _, c := range chunks {
+								o.Raw = append(o.Raw, len(c)-24)
+								if len(c) > 3 {
+									o.Types += string(c[3:4])
+								}
+								w, err := inst.SignAndEncrypt(m, c)
+								if err != nil {
+									o.Err = "signAndEncrypt: " + err.Error()
+									o.Secured = append(o.Secured, -1)
+									continue
+								}
+								o.Secured = append(o.Secured, len(w))
+							}
+						}()
+						enc.Encode(o)
+					}
+				}
+			}
+		}
+	}
 }
 
 func main() {
